@@ -377,6 +377,556 @@ theorem cleanupTimeout_noState {i : Inst} (s : State) (now : Nat) (h : NoStateL 
 theorem cleanupUnknown_noState {i : Inst} (s : State) (h : NoStateL i s.fcs) :
     NoStateL i (cleanupUnknown shardOf s).fcs := noStateL_filter _ (noStateL_dropAll _ h)
 
+/-! ### conditions: `Save`, `calculateUpstreamCondition`, a successful report -/
+
+theorem find_saveCond_self (conds : List (Nat × Cond)) (sh : Nat) (c : Cond) :
+    ((saveCond conds sh c).find? fun r => r.1 == sh && r.2.upstream == c.upstream && r.2.name == c.name)
+      = some (sh, c) := by
+  unfold saveCond
+  rw [List.find?_append]
+  have h1 : (conds.filter fun r => !(r.1 == sh && r.2.upstream == c.upstream && r.2.name == c.name)).find?
+      (fun r => r.1 == sh && r.2.upstream == c.upstream && r.2.name == c.name) = none := by
+    rw [List.find?_eq_none]
+    intro x hx
+    have h := (List.mem_filter.1 hx).2
+    show ¬((x.1 == sh && x.2.upstream == c.upstream && x.2.name == c.name) = true)
+    cases hp : (x.1 == sh && x.2.upstream == c.upstream && x.2.name == c.name)
+    · simp
+    · rw [hp] at h; cases h
+  rw [h1]
+  simp
+
+theorem mem_saveCond (conds : List (Nat × Cond)) (sh : Nat) (c : Cond) (r : Nat × Cond)
+    (h : r ∈ saveCond conds sh c) : r ∈ conds ∨ r = (sh, c) := by
+  simp only [saveCond, List.mem_append, List.mem_filter, List.mem_singleton] at h
+  cases h with
+  | inl h => exact Or.inl h.1
+  | inr h => exact Or.inr h
+
+theorem mem_saveCond_of_ne (conds : List (Nat × Cond)) (sh : Nat) (c : Cond) (r : Nat × Cond) (hr : r ∈ conds)
+    (hne : ¬(r.1 = sh ∧ r.2.upstream = c.upstream ∧ r.2.name = c.name)) : r ∈ saveCond conds sh c := by
+  simp only [saveCond, List.mem_append, List.mem_filter, List.mem_singleton]
+  refine Or.inl ⟨hr, ?_⟩
+  simp only [Bool.not_eq_true', Bool.and_eq_false_iff, beq_eq_false_iff_ne]
+  by_cases h1 : r.1 = sh
+  · by_cases h2 : r.2.upstream = c.upstream
+    · exact Or.inr (fun h3 => hne ⟨h1, h2, h3⟩)
+    · exact Or.inl (Or.inr h2)
+  · exact Or.inl (Or.inl h1)
+
+theorem mem_summed (conds : List (Nat × Cond)) (sh : Nat) (u : Ups) (c : Cond) (h : c ∈ summed conds sh u) :
+    (sh, c) ∈ conds ∧ c.upstream = u ∧ c.name ≠ stateName u := by
+  simp only [summed, listUpstream, List.mem_filter, List.mem_map] at h
+  obtain ⟨⟨r, ⟨hr, hk⟩, rfl⟩, hn⟩ := h
+  simp only [Bool.and_eq_true, beq_iff_eq] at hk
+  refine ⟨?_, hk.2, by simpa using hn⟩
+  have : r = (sh, r.2) := by rw [← hk.1]
+  rw [← this]; exact hr
+
+/-- saving the upstream state condition does not change what `calculateUpstreamCondition` adds up. -/
+theorem summed_saveCond_state (conds : List (Nat × Cond)) (sh : Nat) (u : Ups) (c : Cond)
+    (hu : c.upstream = u) (hn : c.name = stateName u) : summed (saveCond conds sh c) sh u = summed conds sh u := by
+  unfold summed listUpstream saveCond
+  rw [List.filter_append, List.map_append, List.filter_append]
+  have h2 : ((([(sh, c)] : List (Nat × Cond)).filter fun r => r.1 == sh && r.2.upstream == u).map (·.2)).filter
+      (fun c => c.name != stateName u) = [] := by
+    simp [hu, hn]
+  rw [h2, List.append_nil, hu, hn]
+  rw [List.filter_map, List.filter_map, List.filter_filter, List.filter_filter, List.filter_filter]
+  congr 1
+  apply List.filter_congr
+  intro x _
+  simp only [Function.comp, bne]
+  cases (x.1 == sh) <;> cases (x.2.upstream == u) <;> cases (x.2.name == stateName u) <;> rfl
+
+/-- after saving the upstream state condition `c`, `Get` finds it and the summed conditions are those of before. -/
+theorem state_saved (s : State) (L : List (Nat × Cond)) (sh : Nat) (u : Ups) (c : Cond)
+    (hu : c.upstream = u) (hn : c.name = stateName u) :
+    getCond { s with conds := saveCond L sh c } sh u (stateName u) = some c ∧
+    summed (saveCond L sh c) sh u = summed L sh u := by
+  refine ⟨?_, summed_saveCond_state L sh u c hu hn⟩
+  have h := find_saveCond_self L sh c
+  rw [hu, hn] at h
+  unfold getCond
+  simp only
+  rw [h]; rfl
+
+theorem getCond_some (s : State) (sh : Nat) (u : Ups) (n : Str) (c : Cond) (h : getCond s sh u n = some c) :
+    (sh, c) ∈ s.conds ∧ c.upstream = u ∧ c.name = n := by
+  unfold getCond at h
+  obtain ⟨r, hr, hr2⟩ := Option.map_eq_some_iff.1 h
+  have hp := List.find?_some hr
+  have hm := List.mem_of_find?_eq_some hr
+  simp only [Bool.and_eq_true, beq_iff_eq] at hp
+  subst hr2
+  refine ⟨?_, hp.1.2, hp.2⟩
+  have : r = (sh, r.2) := by rw [← hp.1.1]
+  rw [← this]; exact hm
+
+/-- what a report that is answered (not rejected) did. -/
+theorem report_ok (s : State) (u : Ups) (j : Inst) (ri : List (Str × Kind)) (q : List Item) (l : Str)
+    (h : (report shardOf s u j ri q).2 = .reported l) :
+    isLeader s (shardOf u) = true ∧ ∃ upc, getCond s (shardOf u) u (stateName u) = some upc ∧
+      (report shardOf s u j ri q).1 =
+        { s with conds := (saveCond (saveCond s.conds (shardOf u) ⟨condName u j, u, j, some l, q, []⟩) (shardOf u)
+            ({ upc with status := calcSums (summed (saveCond s.conds (shardOf u) ⟨condName u j, u, j, some l, q, []⟩)
+                (shardOf u) u) } : Cond)) } := by
+  have h0 := h
+  unfold report at h
+  simp only [] at h
+  split at h
+  · cases h
+  · rename_i hl
+    split at h
+    · cases h
+    · rename_i hst
+      split at h
+      · cases h
+      · rename_i upc hupc
+        split at h
+        · cases h
+        · rename_i kept hk
+          split at h
+          · cases h
+          · rename_i hq
+            simp only [Out.reported.injEq] at h
+            refine ⟨by simpa using hl, upc, hupc, ?_⟩
+            unfold report
+            simp only [hl, hst, hupc, hk, hq, if_false, Bool.false_eq_true]
+            rw [h]
+
+theorem report_out_cases (s : State) (u : Ups) (j : Inst) (ri : List (Str × Kind)) (q : List Item) :
+    (∃ e, (report shardOf s u j ri q).2 = .err e) ∨ (∃ l, (report shardOf s u j ri q).2 = .reported l) := by
+  unfold report
+  simp only []
+  repeat' (first | split | (simp only []; split))
+  all_goals first
+    | exact Or.inl ⟨_, rfl⟩
+    | exact Or.inr ⟨_, rfl⟩
+
+/-- a report that is not answered changes nothing. -/
+theorem report_unchanged_conds (s : State) (u : Ups) (j : Inst) (ri : List (Str × Kind)) (q : List Item)
+    (h : ∀ l, (report shardOf s u j ri q).2 ≠ .reported l) : (report shardOf s u j ri q).1.conds = s.conds := by
+  unfold report at h ⊢
+  simp only [] at h ⊢
+  repeat' (first | split | (simp only []; split))
+  all_goals first
+    | rfl
+    | (exfalso; simp_all)
+
+/-- flow control `r` of `pre` is still there in `fcs` (same store, cluster, name) with the same state for `i`. -/
+def Kept (i : Inst) (fcs : List (Nat × Ups × FC)) (r : Nat × Ups × FC) : Prop :=
+  ∃ r' ∈ fcs, r'.1 = r.1 ∧ r'.2.1 = r.2.1 ∧ r'.2.2.name = r.2.2.name ∧ r'.2.2.getState i = r.2.2.getState i
+
+theorem kept_mapFC {i : Inst} (fcs : List (Nat × Ups × FC)) (sh : Nat) (u : Ups) (n : Str) (g : FC → FC)
+    (hname : ∀ f, (g f).name = f.name) (hst : ∀ f, (g f).getState i = f.getState i)
+    (r : Nat × Ups × FC) (h : Kept i fcs r) : Kept i (mapFC fcs sh u n g) r := by
+  obtain ⟨r', hr', h1, h2, h3, h4⟩ := h
+  by_cases hk : (r'.1 == sh && r'.2.1 == u && r'.2.2.name == n) = true
+  · refine ⟨(r'.1, r'.2.1, g r'.2.2), ?_, h1, h2, ?_, ?_⟩
+    · exact List.mem_map.2 ⟨r', hr', by simp [hk]⟩
+    · simp only [hname]; exact h3
+    · simp only [hst]; exact h4
+  · refine ⟨r', ?_, h1, h2, h3, h4⟩
+    exact List.mem_map.2 ⟨r', hr', by simp [hk]⟩
+
+theorem acquire_kept {i j : Inst} (hij : i ≠ j) (s : State) (u : Ups) (rid : Int) (reqs : List (Str × Int))
+    (r : Nat × Ups × FC) (hr : r ∈ s.fcs) : Kept i (acquire shardOf s u j rid reqs).1.fcs r :=
+  acquire_inv shardOf (fun st => Kept i st.fcs r) s u j rid reqs
+    (fun a rq ha => by
+      rcases acquireOne_fcs j rid (shardOf u) u a rq with e | e
+      · rw [e]; exact ha
+      · rw [e]
+        exact kept_mapFC _ _ _ _ _ (fun f => setState_name f j rid rq.2)
+          (fun f => setState_getState_ne f i j rid rq.2 hij) r ha)
+    ⟨r, hr, rfl, rfl, rfl, rfl⟩
+
+/-! ### one step of a history, seen from a silent instance -/
+
+theorem step_noState {i : Inst} (s : State) (op : Op) (h : op.isBy i = false) (hs : NoState i s) :
+    NoState i (step shardOf s op).1 := by
+  cases op with
+  | heartbeat j t => exact hs
+  | report u j ri q =>
+    show NoStateL i (report shardOf s u j ri q).1.fcs
+    rw [(report_frame shardOf s u j ri q).2.1]; exact hs
+  | acquire u j rid reqs =>
+    have hij : i ≠ j := by intro e; subst e; simp [Op.isBy] at h
+    exact acquire_noState shardOf hij s u rid reqs hs
+  | cleanupTimeout now => exact cleanupTimeout_noState shardOf s now hs
+  | cleanupUnknown => exact cleanupUnknown_noState shardOf s hs
+  | setLeader sh b => exact hs
+  | leaderCheck => exact leaderCheck_noState shardOf s hs
+  | list u sc => exact hs
+  | unlist u => exact hs
+  | handle u => exact handle_noState shardOf s u hs
+
+/-- heartbeat entries of a silent instance are never created. -/
+theorem step_hb_from {i : Inst} (s : State) (op : Op) (h : op.isBy i = false) :
+    ∀ p ∈ (step shardOf s op).1.hb, p.1 = i → p ∈ s.hb := by
+  intro p hp hi
+  cases op with
+  | heartbeat j t =>
+    have hij : j ≠ i := by intro e; subst e; simp [Op.isBy] at h
+    simp only [step, heartbeat, List.mem_append, List.mem_filter, List.mem_singleton] at hp
+    cases hp with
+    | inl h1 => exact h1.1
+    | inr h1 => subst h1; exact absurd hi hij
+  | report u j ri q => rw [show (step shardOf s (.report u j ri q)).1.hb = s.hb from (report_frame shardOf s u j ri q).1] at hp; exact hp
+  | acquire u j rid reqs => rw [show (step shardOf s (.acquire u j rid reqs)).1.hb = s.hb from acquire_hb shardOf s u j rid reqs] at hp; exact hp
+  | cleanupTimeout now => exact (List.mem_filter.1 hp).1
+  | cleanupUnknown => exact hp
+  | setLeader sh b => exact hp
+  | leaderCheck => rw [show (step shardOf s .leaderCheck).1.hb = s.hb from leaderCheck_hb shardOf s] at hp; exact hp
+  | list u sc => exact hp
+  | unlist u => exact hp
+  | handle u => rw [show (step shardOf s (.handle u)).1.hb = s.hb from (handle_frame shardOf s u).1] at hp; exact hp
+
+/-- only the time-out pass removes heartbeat entries of an instance other than the one acting. -/
+theorem step_hb_keep {i : Inst} (s : State) (op : Op) (h : op.isBy i = false) (hop : ∀ now, op ≠ .cleanupTimeout now) :
+    ∀ p ∈ s.hb, p.1 = i → p ∈ (step shardOf s op).1.hb := by
+  intro p hp hi
+  cases op with
+  | heartbeat j t =>
+    have hij : j ≠ i := by intro e; subst e; simp [Op.isBy] at h
+    simp only [step, heartbeat, List.mem_append, List.mem_filter, List.mem_singleton]
+    exact Or.inl ⟨hp, by simp [hi, Ne.symm hij]⟩
+  | report u j ri q => rw [show (step shardOf s (.report u j ri q)).1.hb = s.hb from (report_frame shardOf s u j ri q).1]; exact hp
+  | acquire u j rid reqs => rw [show (step shardOf s (.acquire u j rid reqs)).1.hb = s.hb from acquire_hb shardOf s u j rid reqs]; exact hp
+  | cleanupTimeout now => exact absurd rfl (hop now)
+  | cleanupUnknown => exact hp
+  | setLeader sh b => exact hp
+  | leaderCheck => rw [show (step shardOf s .leaderCheck).1.hb = s.hb from leaderCheck_hb shardOf s]; exact hp
+  | list u sc => exact hp
+  | unlist u => exact hp
+  | handle u => rw [show (step shardOf s (.handle u)).1.hb = s.hb from (handle_frame shardOf s u).1]; exact hp
+
+/-- the time-out pass drops every in-flight state of an instance that is dead at `now`. -/
+theorem cleanupTimeout_drops_dead (s : State) (now : Nat) (i : Inst) (hdead : DeadAt now s i) :
+    NoState i (cleanupTimeout shardOf s now) := by
+  obtain ⟨q, hq, hqi⟩ := hdead.1
+  have hqd : i ∈ (s.hb.filter (timedOut now)).map (·.1) :=
+    List.mem_map.2 ⟨q, List.mem_filter.2 ⟨hq, hdead.2 q hq hqi⟩, hqi⟩
+  intro r hr hm p hp
+  simp only [cleanupTimeout, List.mem_map] at hr
+  obtain ⟨r0, hr0, rfl⟩ := hr
+  have hm0 : r0.2.2.isMif = true := by rw [← dropAll_isMif]; exact hm
+  exact dropAll_removes _ _ hm0 _ hqd p hp
+
+theorem run_append (s : State) (a b : List Op) : run shardOf s (a ++ b) = run shardOf (run shardOf s a) b := by
+  simp [run, List.foldl_append]
+
+theorem run_cons (s : State) (op : Op) (ops : List Op) :
+    run shardOf s (op :: ops) = run shardOf (step shardOf s op).1 ops := rfl
+
+/-- what a silent, already forgotten instance stays: forgotten. -/
+theorem gone_run {i : Inst} (ops : List Op) (hq : Quiet i ops) (s : State) (h : NoHb i s ∧ NoState i s) :
+    NoHb i (run shardOf s ops) ∧ NoState i (run shardOf s ops) := by
+  induction ops generalizing s with
+  | nil => exact h
+  | cons op t ih =>
+    rw [run_cons]
+    have hop : op.isBy i = false := hq op (by simp)
+    refine ih (fun o ho => hq o (by simp [ho])) _ ⟨?_, step_noState shardOf s op hop h.2⟩
+    intro p hp hi
+    exact h.1 p (step_hb_from shardOf s op hop p hp hi) hi
+
+/-- the invariant carried from the last heartbeat of `i` (at `t0`) through a history in which `i` is silent:
+    every entry of `i` still says `t0`, and once the entry is gone so are the in-flight states. -/
+def LastSeen (i : Inst) (t0 : Nat) (s : State) : Prop :=
+  (∀ p ∈ s.hb, p.1 = i → p.2 = t0) ∧ (NoHb i s → NoState i s)
+
+theorem lastSeen_step {i : Inst} {t0 : Nat} (s : State) (op : Op) (hop : op.isBy i = false)
+    (h : LastSeen i t0 s) : LastSeen i t0 (step shardOf s op).1 := by
+  refine ⟨fun p hp hi => h.1 p (step_hb_from shardOf s op hop p hp hi) hi, ?_⟩
+  intro hno
+  by_cases hct : ∃ now, op = .cleanupTimeout now
+  · obtain ⟨now, rfl⟩ := hct
+    by_cases hn : NoHb i s
+    · exact step_noState shardOf s _ hop (h.2 hn)
+    · have hex : ∃ p ∈ s.hb, p.1 = i := by
+        apply Classical.byContradiction
+        intro hne
+        exact hn (fun p hp hi => hne ⟨p, hp, hi⟩)
+      refine cleanupTimeout_drops_dead shardOf s now i ⟨hex, ?_⟩
+      intro p hp hi
+      cases hto : timedOut now p
+      · exact absurd hi (hno p (List.mem_filter.2 ⟨hp, by simp [hto]⟩))
+      · rfl
+  · have hop' : ∀ now, op ≠ .cleanupTimeout now := fun now e => hct ⟨now, e⟩
+    have hn : NoHb i s := fun p hp hi => hno p (step_hb_keep shardOf s op hop hop' p hp hi) hi
+    exact step_noState shardOf s op hop (h.2 hn)
+
+theorem lastSeen_run {i : Inst} {t0 : Nat} (ops : List Op) (hq : Quiet i ops) (s : State)
+    (h : LastSeen i t0 s) : LastSeen i t0 (run shardOf s ops) := by
+  induction ops generalizing s with
+  | nil => exact h
+  | cons op t ih =>
+    rw [run_cons]
+    exact ih (fun o ho => hq o (by simp [ho])) _ (lastSeen_step shardOf s op (hq op (by simp)) h)
+
+theorem lastSeen_heartbeat (s : State) (i : Inst) (t0 : Nat) : LastSeen i t0 (heartbeat s i t0) := by
+  refine ⟨?_, ?_⟩
+  · intro p hp hi
+    simp only [heartbeat, List.mem_append, List.mem_filter, List.mem_singleton] at hp
+    cases hp with
+    | inl h1 => simp [hi] at h1
+    | inr h1 => rw [h1]
+  · intro hno
+    exact absurd rfl (hno (i, t0) (by simp [heartbeat]))
+
 end frames
+
+
+/-! ### the total of a flow control is the sum of what it records per instance -/
+
+/-- no instance has two states in the list. -/
+def KeysNodup : List (Inst × IState) → Prop
+  | [] => True
+  | p :: t => (∀ q ∈ t, q.1 ≠ p.1) ∧ KeysNodup t
+
+/-- the invariant of `globalMaxInflight` (`count = Σ instanceStates[i].count`, in int32). -/
+def Good (f : FC) : Prop := f.isMif = true → KeysNodup f.states ∧ f.count = toI32 (sumCounts f.states)
+
+theorem sumCounts_append (a b : List (Inst × IState)) : sumCounts (a ++ b) = sumCounts a + sumCounts b := by
+  induction a with
+  | nil => simp [sumCounts]
+  | cons x t ih => simp only [List.cons_append, sumCounts, ih]; omega
+
+theorem keysNodup_filter (l : List (Inst × IState)) (p : Inst × IState → Bool) (h : KeysNodup l) :
+    KeysNodup (l.filter p) := by
+  induction l with
+  | nil => exact h
+  | cons x t ih =>
+    simp only [List.filter_cons]
+    split
+    · exact ⟨fun q hq => h.1 q (List.mem_filter.1 hq).1, ih h.2⟩
+    · exact ih h.2
+
+theorem keysNodup_snoc (l : List (Inst × IState)) (x : Inst × IState) (h : KeysNodup l) (hx : ∀ q ∈ l, q.1 ≠ x.1) :
+    KeysNodup (l ++ [x]) := by
+  induction l with
+  | nil => exact ⟨fun q hq => (by cases hq), trivial⟩
+  | cons y t ih =>
+    refine ⟨?_, ih h.2 (fun q hq => hx q (by simp [hq]))⟩
+    intro q hq
+    rcases List.mem_append.1 hq with h1 | h1
+    · exact h.1 q h1
+    · rw [List.mem_singleton] at h1; subst h1
+      exact Ne.symm (hx y (by simp))
+
+theorem keysNodup_put (l : List (Inst × IState)) (i : Inst) (st : IState) (h : KeysNodup l) :
+    KeysNodup (l.filter (·.1 != i) ++ [(i, st)]) := by
+  apply keysNodup_snoc _ _ (keysNodup_filter l _ h)
+  intro q hq
+  have := (List.mem_filter.1 hq).2
+  simpa using this
+
+theorem filter_ne_of_absent (l : List (Inst × IState)) (i : Inst) (h : ∀ p ∈ l, p.1 ≠ i) :
+    l.filter (·.1 != i) = l := by
+  rw [List.filter_eq_self]
+  intro p hp; simp [h p hp]
+
+theorem sum_filter_present (l : List (Inst × IState)) (i : Inst) (p : Inst × IState) (hn : KeysNodup l)
+    (hf : l.find? (·.1 == i) = some p) : sumCounts l = sumCounts (l.filter (·.1 != i)) + p.2.count := by
+  induction l with
+  | nil => cases hf
+  | cons x t ih =>
+    by_cases hx : x.1 = i
+    · have hxp : x = p := by simpa [List.find?_cons, hx] using hf
+      have hrest : t.filter (·.1 != i) = t := by
+        apply filter_ne_of_absent
+        intro q hq; rw [← hx]; exact hn.1 q hq
+      simp only [List.filter_cons, hx, bne_self_eq_false, Bool.false_eq_true, if_false, hrest, sumCounts, ← hxp]
+      omega
+    · have hf' : t.find? (·.1 == i) = some p := by simpa [List.find?_cons, hx] using hf
+      have := ih hn.2 hf'
+      simp only [List.filter_cons, bne_iff_ne, ne_eq, hx, not_false_eq_true, decide_true, if_true, sumCounts, this]
+      omega
+
+theorem good_drop (f : FC) (i : Inst) (h : Good f) : Good (f.drop i) := by
+  unfold FC.drop
+  split
+  · exact h
+  · rename_i hm
+    have hm' : f.isMif = true := by simpa using hm
+    obtain ⟨hn, hc⟩ := h hm'
+    split
+    · rename_i st hst
+      intro _
+      refine ⟨keysNodup_filter _ _ hn, ?_⟩
+      unfold FC.getState at hst
+      obtain ⟨p, hp, hp2⟩ := Option.map_eq_some_iff.1 hst
+      have := sum_filter_present f.states i p hn hp
+      simp only
+      rw [hc, this, ← hp2]
+      unfold toI32; omega
+    · exact h
+
+theorem good_put_present (f : FC) (i : Inst) (st st' : IState) (c : Int) (hm : f.isMif = true) (h : Good f)
+    (hst : f.getState i = some st) (hc : c = toI32 (sumCounts f.states - st.count + st'.count)) :
+    Good (f.put i st' c) := by
+  intro _
+  obtain ⟨hn, _⟩ := h hm
+  refine ⟨keysNodup_put _ _ _ hn, ?_⟩
+  unfold FC.getState at hst
+  obtain ⟨p, hp, hp2⟩ := Option.map_eq_some_iff.1 hst
+  have := sum_filter_present f.states i p hn hp
+  simp only [FC.put, sumCounts_append, sumCounts]
+  rw [hc, this, ← hp2]
+  congr 1; omega
+
+theorem good_put_absent (f : FC) (i : Inst) (st' : IState) (c : Int) (hm : f.isMif = true) (h : Good f)
+    (hst : f.getState i = none) (hc : c = toI32 (sumCounts f.states + st'.count)) :
+    Good (f.put i st' c) := by
+  intro _
+  obtain ⟨hn, _⟩ := h hm
+  refine ⟨keysNodup_put _ _ _ hn, ?_⟩
+  have := filter_ne_of_absent f.states i ((getState_none_iff f i).1 hst)
+  simp only [FC.put, sumCounts_append, sumCounts, this]
+  rw [hc]; congr 1; omega
+
+
+theorem good_setState (f : FC) (i : Inst) (rid cur : Int) (h : Good f) : Good (setState f i rid cur).1 := by
+  unfold setState
+  by_cases hm : f.isMif = true
+  · simp only [hm, Bool.not_true, Bool.false_eq_true, if_false]
+    by_cases hneg : cur < 0
+    · simp only [hneg, if_true]; exact good_drop f i h
+    · simp only [hneg, if_false]
+      obtain ⟨hn, hc⟩ := h hm
+      cases hst : f.getState i with
+      | none =>
+        simp only [Option.getD_none]
+        repeat' (first | split | (simp only []; split))
+        all_goals (apply good_put_absent f i _ _ hm h hst; (try simp only []); rw [hc]; unfold toI32; omega)
+      | some st =>
+        simp only [Option.getD_some]
+        repeat' (first | split | (simp only []; split))
+        all_goals (apply good_put_present f i st _ _ hm h hst; (try simp only []); rw [hc]; unfold toI32; omega)
+  · have hf : f.isMif = false := by simpa using hm
+    simp only [hf, Bool.not_false, if_true]; exact h
+
+
+/-! ### a property of single flow controls that every operation preserves -/
+
+def AllFC (P : FC → Prop) (fcs : List (Nat × Ups × FC)) : Prop := ∀ r ∈ fcs, P r.2.2
+
+/-- `P` survives everything the server ever does to a flow control. -/
+structure Closed (P : FC → Prop) : Prop where
+  new : ∀ sc, P (newFC sc)
+  resize : ∀ f sc, P f → P (resizeFC f sc)
+  drop : ∀ f d, P f → P (f.drop d)
+  set : ∀ f j rid cur, P f → P (setState f j rid cur).1
+
+section allfc
+variable (shardOf : Ups → Nat) {P : FC → Prop}
+
+theorem allFC_mapFC {fcs : List (Nat × Ups × FC)} (sh : Nat) (u : Ups) (n : Str) (g : FC → FC)
+    (hg : ∀ f, P f → P (g f)) (h : AllFC P fcs) : AllFC P (mapFC fcs sh u n g) := by
+  intro r hr
+  simp only [mapFC, List.mem_map] at hr
+  obtain ⟨r0, hr0, rfl⟩ := hr
+  split
+  · exact hg _ (h r0 hr0)
+  · exact h r0 hr0
+
+theorem allFC_filter {fcs : List (Nat × Ups × FC)} (p : Nat × Ups × FC → Bool) (h : AllFC P fcs) :
+    AllFC P (fcs.filter p) := fun r hr => h r (List.mem_filter.1 hr).1
+
+theorem allFC_dropAll (hP : Closed P) {fcs : List (Nat × Ups × FC)} (ds : List Inst) (h : AllFC P fcs) :
+    AllFC P (fcs.map fun r => (r.1, r.2.1, dropAll ds r.2.2)) := by
+  intro r hr
+  obtain ⟨r0, hr0, rfl⟩ := List.mem_map.1 hr
+  show P (dropAll ds r0.2.2)
+  have : ∀ (l : List Inst) (f : FC), P f → P (dropAll l f) := by
+    intro l
+    induction l with
+    | nil => intro f hf; exact hf
+    | cons d t ih => intro f hf; exact ih _ (hP.drop f d hf)
+  exact this ds _ (h r0 hr0)
+
+theorem allFC_syncOne (hP : Closed P) (sh : Nat) (u : Ups) (fcs : List (Nat × Ups × FC)) (sc : Schema)
+    (h : AllFC P fcs) : AllFC P (syncOne sh u fcs sc) := by
+  unfold syncOne
+  split
+  · exact h
+  · split
+    · intro r hr
+      rcases List.mem_append.1 hr with h1 | h1
+      · exact h r h1
+      · rw [List.mem_singleton] at h1; subst h1; exact hP.new sc
+    · split
+      · exact allFC_mapFC _ _ _ _ (fun _ _ => hP.new sc) h
+      · exact allFC_mapFC _ _ _ _ (fun f hf => hP.resize f sc hf) h
+
+theorem syncFlowControl_allFC (hP : Closed P) (s : State) (sh : Nat) (u : Ups) (sc : List Schema)
+    (h : AllFC P s.fcs) : AllFC P (syncFlowControl s sh u sc).fcs := by
+  unfold syncFlowControl; simp only []; split
+  · exact h
+  · apply allFC_filter
+    exact foldl_inv (AllFC P) (syncOne sh u) sc s.fcs (fun a b ha => allFC_syncOne hP sh u a b ha) h
+
+theorem handle_allFC (hP : Closed P) (s : State) (u : Ups) (h : AllFC P s.fcs) :
+    AllFC P (handle shardOf s u).fcs := by
+  unfold handle
+  simp only
+  split
+  · exact h
+  · split
+    · exact h
+    · split
+      · exact allFC_filter _ h
+      · exact syncFlowControl_allFC hP _ _ _ _ h
+
+theorem step_allFC (hP : Closed P) (s : State) (op : Op) (h : AllFC P s.fcs) :
+    AllFC P (step shardOf s op).1.fcs := by
+  cases op with
+  | heartbeat j t => exact h
+  | report u j ri q =>
+    show AllFC P (report shardOf s u j ri q).1.fcs
+    rw [(report_frame shardOf s u j ri q).2.1]; exact h
+  | acquire u j rid reqs =>
+    exact acquire_inv shardOf (fun st => AllFC P st.fcs) s u j rid reqs
+      (fun a rq ha => by
+        rcases acquireOne_fcs j rid (shardOf u) u a rq with e | e
+        · rw [e]; exact ha
+        · rw [e]; exact allFC_mapFC _ _ _ _ (fun f hf => hP.set f j rid rq.2 hf) ha) h
+  | cleanupTimeout now => exact allFC_dropAll hP _ h
+  | cleanupUnknown => exact allFC_filter _ (allFC_dropAll hP _ h)
+  | setLeader sh b => exact h
+  | leaderCheck =>
+    exact leaderCheck_inv shardOf (fun st => AllFC P st.fcs) (fun _ _ ha => ha)
+      (fun a u ha => handle_allFC shardOf hP a u ha) (fun a sh ha => allFC_filter _ ha) s h
+  | list u sc => exact h
+  | unlist u => exact h
+  | handle u => exact handle_allFC shardOf hP s u h
+
+theorem run_allFC (hP : Closed P) (ops : List Op) (s : State) (h : AllFC P s.fcs) :
+    AllFC P (run shardOf s ops).fcs := by
+  induction ops generalizing s with
+  | nil => exact h
+  | cons op t ih => rw [run_cons]; exact ih _ (step_allFC shardOf hP s op h)
+
+end allfc
+
+theorem resizeFC_count (f : FC) (sc : Schema) : (resizeFC f sc).count = f.count := by
+  unfold resizeFC; split
+  · rfl
+  · split <;> rfl
+  · rfl
+
+theorem closed_good : Closed Good where
+  new := by
+    intro sc _
+    rw [newFC_states]
+    refine ⟨trivial, ?_⟩
+    unfold newFC; split <;> rfl
+  resize := by
+    intro f sc h hm
+    rw [resizeFC_isMif] at hm
+    rw [resizeFC_states, resizeFC_count]; exact h hm
+  drop := fun f d h => good_drop f d h
+  set := fun f j rid cur h => good_setState f j rid cur h
 
 end KG.Lemmas.Reclaim
